@@ -223,8 +223,8 @@ theorem prefix_callbacks (hn : r.n ≠ 0)
           · cases hb : r.hasD with | true => rfl | false => exact absurd ⟨a, hb⟩ h2
           · cases hb : r.hasF with | true => rfl | false => exact absurd ⟨a, hb⟩ h3
   simp [afterMerge, frontSteps, runSteps, runStep, hget, TypedVals.get, TypedVals.val, Kw.ty, convert, Val.ty, hn,
-    runCheck, Val.num?, Pred.ty, Pred.holds, BExpr.eval, BExpr.isInt, hc, Rat.intCast_natCast, hd, Traits.needs, Request.has,
-    M.ite_apply, errS, errT]
+    runCheck, readAll, bEnv, numView, Val.num?, Pred.ty, Pred.holds, Pred.params, BExpr.eval, BExpr.isInt, BExpr.params, hc,
+    Rat.intCast_natCast, hd, Traits.needs, Request.has, M.ite_apply, errS, errT]
   by_cases h1 : (t.meth Kw.method).traits.needsKernel = true ∧ r.hasK = false
   · simp [h1]
   · by_cases h2 : (t.meth Kw.method).traits.needsDistance = true ∧ r.hasD = false
